@@ -695,6 +695,54 @@ func (e *Engine) loopsOf(fn *ssa.Function) map[*ssa.BasicBlock]*loopInfo {
 	return res
 }
 
+// monotoneCounter: +1 if every store to a inside the loop is a = a + c (c >= 0),
+// -1 if every store is a = a - c (c >= 0), 0 otherwise.
+func monotoneCounter(li *loopInfo, a *ssa.Alloc) int {
+	if !isInteger(a.Type().Underlying().(*types.Pointer).Elem()) {
+		return 0
+	}
+	dir := 0
+	n := 0
+	for b := range li.body {
+		for _, in := range b.Instrs {
+			st, ok := in.(*ssa.Store)
+			if !ok || st.Addr != ssa.Value(a) {
+				if ok {
+					if ra := rootAlloc(st.Addr); ra == a {
+						return 0
+					}
+				}
+				continue
+			}
+			n++
+			bo, ok := st.Val.(*ssa.BinOp)
+			if !ok || (bo.Op != token.ADD && bo.Op != token.SUB) {
+				return 0
+			}
+			ld, ok := bo.X.(*ssa.UnOp)
+			if !ok || ld.Op != token.MUL || ld.X != ssa.Value(a) {
+				return 0
+			}
+			c, ok := bo.Y.(*ssa.Const)
+			if !ok || c.Value == nil || c.Value.Kind() != constant.Int || constant.Sign(c.Value) < 0 {
+				return 0
+			}
+			d := 1
+			if bo.Op == token.SUB {
+				d = -1
+			}
+			if dir != 0 && dir != d {
+				return 0
+			}
+			dir = d
+		}
+	}
+	if n == 0 {
+		return 0
+	}
+	return dir
+}
+
 func rootAlloc(v ssa.Value) *ssa.Alloc {
 	for {
 		switch x := v.(type) {
@@ -859,10 +907,24 @@ func (e *Engine) enterLoop(st *State, li *loopInfo, from *ssa.BasicBlock, k cont
 		if cell == nil {
 			continue
 		}
+		var before Term
+		if len(cell.L) == 1 {
+			before = cell.L[0]
+		}
 		hv := st.freshVal(cell.T, st.ctx.freshName("hv!"+a.Comment))
 		st.boundRefs(hv)
 		copy(cell.L, hv.L)
 		cell.P = nil
+		// counters that are only ever incremented (decremented) by constants stay at or above
+		// (below) their value at loop entry; wrap-around of such counters is not modelled
+		if dir := monotoneCounter(li, a); dir != 0 && before.S != "" && before.Sort == SInt {
+			if dir > 0 {
+				st.assume(Ge(hv.L[0], before))
+			} else {
+				st.assume(Le(hv.L[0], before))
+			}
+			st.ctx.note("loop counter %s in %s is only stepped by constants: assumed not to wrap around", a.Comment, funcKey(st.fr.fn))
+		}
 		if a.Comment == "rangeindex" {
 			// built by go/ssa: starts at -1 and is only incremented
 			st.assume(And(Ge(hv.L[0], I(-1)), Le(hv.L[0], I(1<<62))))
@@ -1416,13 +1478,27 @@ func (e *Engine) doAlloc(st *State, in *ssa.Alloc) {
 	}
 	if !in.Heap {
 		id := st.newCell(elem)
-		st.set(in, Val{T: in.Type(), L: []Term{I(int64(-1000000000 - id))}, P: &PtrInfo{Kind: pkCell, Root: elem, Cell: id}})
+		addr := I(int64(-1000000000 - id))
+		st.set(in, Val{T: in.Type(), L: []Term{addr}, P: &PtrInfo{Kind: pkCell, Root: elem, Cell: id}})
+		st.zeroGhost(elem, addr)
 		return
 	}
 	ref := st.newRef()
 	p := &PtrInfo{Kind: pkHeap, Root: elem, Ref: ref}
 	st.storePtr(p, zeroVal(elem))
 	st.set(in, Val{T: in.Type(), L: []Term{ref}, P: p})
+	st.zeroGhost(elem, ref)
+}
+
+// zeroGhost initialises the ghost state of a freshly declared library object
+// (a zero bytes.Buffer is empty).
+func (st *State) zeroGhost(elem types.Type, addr Term) {
+	if pk, n := namedOrigin(elem); pk == "bytes" && n == "Buffer" {
+		h := st.heapTerm("G#buf", SInt, false)
+		st.setHeap("G#buf", Store(h, addr, st.bempty()))
+		h2 := st.heapTerm("G#avail", SInt, false)
+		st.setHeap("G#avail", Store(h2, addr, I(0)))
+	}
 }
 
 func (e *Engine) doUnOp(st *State, in *ssa.UnOp) {
